@@ -11,8 +11,9 @@ What runs:
      compared with the model line by line (tools/engine.py), plus the global variables at explored nodes
      (script CONT_MAX/CHOOSE.../GETVAR through model and implementation) — this transfers the theorem about
      the model runtime to the Rust runtime.
-     The Intercept is too large for the theorem; the model runs it (both JSONs) along a deep choice path found by
-     step 5 and along the paths of the divergence classes found there, and is compared with the runtime.
+     The Intercept is too large for the theorem; the model runs it (both JSONs) along the paths of the divergence
+     classes found by step 5 (quick: one class that is not a known finding) and, in the thorough tier, along a deep
+     agreed choice path found there, and is compared with the runtime.
   4. property-direct oracle on the implementation (harness bin inkpair): both stories in lock step along every
      choice path to a LARGER bound (quick depth 6 / 400 paths, thorough depth 10 / 6000 paths), The Intercept
      breadth-first to a path budget (implementation only: its JSON is not translated into Coq).
@@ -44,7 +45,8 @@ ASSUMPTIONS = [
     "translator: Compiler::compile itself + vlib.json2coq (JSON -> Gallina term, trusted); the compiler is not modelled",
     "The Intercept (reference JSON > 40 KB) is outside the theorem: explored on the implementation (breadth-first to a "
     "path budget, and coverage-directed until every offered choice has been taken); the engine model is run on it only "
-    "along one deep choice path (and the paths of found divergences), for both JSONs, and compared with the runtime",
+    "along the paths of found divergences and (thorough tier) one deep choice path, for both JSONs, and compared with "
+    "the runtime",
     "deeper paths (depth 6 quick / 10 thorough) are explored on the implementation only (oracle, not proof)",
     "global variables holding divert targets are compared as 'is a divert target' (container paths are "
     "compiler-internal names)",
@@ -157,6 +159,23 @@ def oracle(ctx, pairs, exe):
     if any(len(p["ref_text"]) > gen_corpus.BIG for p in order):
         stats["the_intercept"] = "breadth-first, %d paths, implementation only" % big_mp
     return fails, stats
+
+
+# fixed regression paths (choice indices from the start, seed 42), replayed in addition to the exploration; each was
+# once a concrete failing input (a path that no longer exists in the reference story compares nothing)
+REGRESSION_PATHS = {
+    "TheIntercept.ink": [
+        # `not x == y` must stay `(not x) == y`: cell, window smashed by hand, looking for something to help
+        [0, 1, 1, 0, 2, 1, 1, 0, 1, 0, 2, 0, 0, 1, 2, 3, 1, 1, 0, 1, 1, 2, 1, 1, 0, 1],
+        # `-else:` without a blank after the dash, both branches
+        [0, 2, 1, 2, 0, 3, 2, 1, 2, 1, 2, 2, 1, 0], [0, 2, 2, 0, 0, 1, 0, 0, 0, 1, 1, 2, 2, 1, 0],
+        # the blank before `}` / `|` of an inline conditional branch is kept
+        [0, 1, 0, 1, 0, 0, 1, 1, 1, 3, 2, 0],
+        [0, 1, 0, 2, 2, 1, 2, 0, 0, 0, 1, 1, 2, 0, 1, 2, 1, 1, 0, 0, 0, 0, 0, 1, 1, 2, 2, 0, 0, 0, 1, 0, 1, 0, 1, 1],
+        # text running into a divert (`the mug,-> drinkit`)
+        [0, 1, 0, 1, 0, 0, 1, 1, 1, 3, 3],
+    ],
+}
 
 
 def choice_points(j):
@@ -278,6 +297,7 @@ def cover_oracle(ctx, pairs, exe):
                         continue
                 fails.append(dict(pair=name, mode="cover", cls=cls, status="diverge", path=d.get("path"), index=d.get("index"),
                                   reference=d.get("a"), ours=d.get("b"), after_choice=d.get("after_choice"), seed=42,
+                                  structural=bool(d.get("structural", True)),
                                   seed_b=c.get("seed_b"), source=p["src"] if len(p["src"]) < 4000 else None))
         if all(r.get("exhaustive") for _, _, r in runs):
             stats["exhaustive_pairs"] += 1
@@ -289,21 +309,42 @@ def cover_oracle(ctx, pairs, exe):
                                       exhausted_novelty=[bool(r.get("exhaustive")) for _, _, r in runs],
                                       max_depth=max((r.get("max_depth", 0) or 0) for _, _, r in runs),
                                       deep_path=max((r.get("deep_path") or [] for _, _, r in runs), key=len))
+    # fixed regression paths
+    reg = [(p, path) for p in pairs if p["ours_text"] is not None for path in REGRESSION_PATHS.get(p["name"], [])]
+    stats["regression_paths"] = len(reg)
+    for (p, path), r in zip(reg, run_pairs(exe, [cover_case(p, 0, 0, path=path) for p, path in reg]) if reg else []):
+        stats["steps"] += r.get("steps", 0) or 0
+        for d in r.get("divergences") or []:
+            cls = d.get("class") or "x"
+            if (cls, p["name"]) in seen:
+                continue
+            seen.add((cls, p["name"]))
+            fails.append(dict(pair=p["name"], mode="cover", cls=cls, status="diverge", path=d.get("path"), index=d.get("index"),
+                              reference=d.get("a"), ours=d.get("b"), seed=42, seed_b=None,
+                              structural=bool(d.get("structural", True)), source=None, regression_path=True))
+    # the orchestrator prints the first few violations only: differences in the offered choices / end status /
+    # variables before differences in texts only, short paths first
+    fails.sort(key=lambda f: (not f.get("structural", True), len(f.get("path") or []), f["pair"], f["cls"]))
     return fails, stats
 
 
 def big_tie_cases(ctx, pairs, cstats, cfails):
     """model-vs-implementation on DEEP paths of the stories that are not translated into Gallina for the theorem
-    (The Intercept): a longest agreed path of the coverage-directed walk and the paths of its divergence classes, each
-    as an inkdrive script (CONT_MAX / CHOOSE ...) through the engine model and the runtime, for BOTH JSONs"""
+    (The Intercept): the paths of the divergence classes found by the coverage-directed walk and (thorough tier) a
+    longest agreed path of that walk, each as an inkdrive script (CONT_MAX / CHOOSE ...) through the engine model and
+    the runtime, for BOTH JSONs.  The model needs ~1 min per case for a story of this size, so the quick tier runs it
+    only for a divergence class that is not a known finding (none on the unchanged tree)."""
+    quick = ctx.quick()
+    known_keys = {k.get("key") for k in vlib.known_findings().get("known", []) if k.get("property") == "C05"}
     cases = []
     for p in pairs:
         info = cstats["big"].get(p["name"])
         if info is None or p["ours_text"] is None:
             continue
-        paths = [("deep", info.get("deep_path") or [])]
-        mine = [f for f in cfails if f["pair"] == p["name"] and f.get("path") is not None]
-        for f in mine[:(1 if ctx.quick() else 4)]:
+        paths = [] if quick else [("deep", info.get("deep_path") or [])]
+        mine = [f for f in cfails if f["pair"] == p["name"] and f.get("path") is not None
+                and not (quick and cover_key(f["pair"], f["cls"]) in known_keys)]
+        for f in mine[:(1 if quick else 4)]:
             paths.append((f["cls"], f["path"][:60]))
         for tag, path in paths:
             script = [["CONT_MAX"]]
@@ -437,7 +478,9 @@ def run(ctx):
         model_on_divergences=model_on_divergences, traces_validated_against_impl=agree, correspondence_mismatches=len(mism),
         correspondence_skipped=skipped, proof_seconds=round(t_proof, 1)))
 
-    new = [f for f in fails if f["pair"] not in known] + [f for f in cfails if f["pair"] not in known]
+    known_keys = {k.get("key") for k in vlib.known_findings().get("known", []) if k.get("property") == "C05"}
+    new = [f for f in fails if f["pair"] not in known] + \
+          [f for f in cfails if f["pair"] not in known and cover_key(f["pair"], f["cls"]) not in known_keys]
     for f in cfails:
         # a pair that is a known finding as a whole keeps its one key; otherwise one key per divergence class
         key = "corpus-pair:" + f["pair"] if f["pair"] in known else cover_key(f["pair"], f["cls"])
